@@ -126,6 +126,9 @@ def check_cli_seq(ctx: Ctx, c: dict):
                     TUPIMAGE_ID_SPACE=c["space"], TUPIMAGE_ID_SUBSPACE=c["sub"], TUPIMAGE_UPLOAD_METHOD=c["method"], PYTHONPATH=str(REPO),
                     PATH=os.path.join(td, "bin") + os.pathsep + env0.get("PATH", "/usr/bin:/bin"), TMUX="/tmp/fake,1,0",
                     TUPIMAGE_NUM_TMUX_LAYERS="1", FAKE_TMUX_client_termname="xterm-kitty", FAKE_TMUX_pid="1", FAKE_TMUX_session_id="$0")
+        if os.environ.get("VERIF_COVERAGE") == "1":
+            # measurement only (harness/cov.py): the CLI processes record the repo lines they execute
+            env0["PYTHONPATH"] = os.path.join(os.path.dirname(os.path.abspath(__file__)), "covsite") + os.pathsep + str(REPO)
         if c.get("uploads_ago") is not None:
             env0["TUPIMAGE_REUPLOAD_MAX_UPLOADS_AGO"] = str(c["uploads_ago"])
         thr_u = c.get("uploads_ago") if c.get("uploads_ago") is not None else 1024
